@@ -152,6 +152,31 @@ def rule_messages(rep: Report, rid="C14.msg") -> None:
     rep.eq(rid, "the composite error carries the collected errors themselves, in collection order", ("param", p[1]), st.ext.get((("param", p[0]), "errors")), **kw)
     muts = [n for n, _ in nf.iter_nodes(tree) if n[0] == "mutate" and n[1] == ("param", p[1])]
     rep.ob(rid, "the composite error does not reorder or drop errors", not muts, **kw, expected="no sort/pop on the error list", found=[(n[2], n[4]) for n in muts])
+    # the composite message lists the collected messages, one per line, in order
+    m = _super_init_msg(tree)
+    got = nf.str_nf(I, m, tree) if m is not None else None
+    ok = False
+    if got is not None and got[0] == "cat" and len(got[1]) == 2 and got[1][0] == const("Parser errors:\n") and got[1][1][0] == "join" and got[1][1][1] == "\n":
+        segs = got[1][1][2]
+        if len(segs) == 1 and segs[0][0] == "loop":
+            lid = segs[0][1]
+            el = ("elem", lid)
+            msg_forms = [("item", ("attr", el, "args"), const(0)), ("call", "str", (el,), ())]
+            ok = I.loops[lid].get("iter") == ("param", p[1]) and not I.loops[lid].get("conds") and len(segs[0][2]) == 1 and segs[0][2][0][0] == "e" \
+                and segs[0][2][0][1] in msg_forms
+    rep.ob(rid, "the composite message is 'Parser errors:' followed by every collected message on its own line, in collection order", ok, **kw,
+           expected="'Parser errors:\\n' + '\\n'.join(error.args[0] for error in errors)", found=fmt(m, I)[:200] if m is not None else "no message passed to the base class")
+    # an unknown language: typed, located, names the language
+    I, fi, tree, rv, st = _run(f"{EQ}.NoSuchLanguageException.__init__")
+    rep.used_function(fi.qualname)
+    p = fi.params()
+    selft, lang, loc = ("param", p[0]), ("param", p[1]), ("param", p[2])
+    kw = dict(file=EFILE, line=fi.node.lineno, function=fi.qualname)
+    m = _super_init_msg(tree)
+    want = _concat(_prefix(loc) + [const("Language not supported: "), lang])
+    rep.ob(rid, "an unknown-language message is '(line:col): Language not supported: ' + the name", same_string(m, want), **kw,
+           expected=[fmt(x, I) for x in _merge(_str_parts(want))], found=[fmt(x, I) for x in _str_parts(m)] if m else None)
+    rep.eq(rid, "an unknown-language error is located where the header token is", loc, st.ext.get((selft, "location")), **kw)
     # subclasses
     f = facts()
     root = f.cls(f"{EQ}.ParserError")
@@ -380,6 +405,9 @@ def rule_stream(rep: Report, rid="C17.order") -> None:
     I3, fi3, tree3, rv3, st3 = _run("gherkin.stream.gherkin_events.GherkinEvents.__init__")
     rep.used_function(fi3.qualname)
     s3 = ("param", fi3.params()[0])
+    rep.ob(rid, "the stream keeps the options it was given (each envelope kind is gated by its own option)",
+           len(fi3.params()) > 1 and st3.ext.get((s3, "options")) == ("param", fi3.params()[1]), file=fi3.file, line=fi3.node.lineno, function=fi3.qualname,
+           expected="self.options = options", found=fmt(st3.ext.get((s3, "options")), I3) if st3.ext.get((s3, "options")) else "never stored")
     gen = st3.ext.get((s3, "id_generator"))
     par = st3.ext.get((s3, "parser"))
     comp = st3.ext.get((s3, "compiler"))
